@@ -259,12 +259,19 @@ def run_property(pid: str, tier: str, seed: int) -> int:
     outcomes = {}
     execs = states = transitions = 0
     nontrivial_keys = set()
+    nontrivial_extra = 0  # distinct non-trivial evaluations counted inside multi-evaluation cases
     for i, r in done:
         execs += r["execs"]
         states += r["states"]
         transitions += r["transitions"]
-        outcomes[r["outcome"]] = outcomes.get(r["outcome"], 0) + 1
-        if r["nontrivial"]:
+        if isinstance(r.get("outcomes"), dict):
+            for ok_, n_ in r["outcomes"].items():
+                outcomes[ok_] = outcomes.get(ok_, 0) + n_
+        else:
+            outcomes[r["outcome"]] = outcomes.get(r["outcome"], 0) + 1
+        if "nontrivial_n" in r:
+            nontrivial_extra += int(r["nontrivial_n"])
+        elif r["nontrivial"]:
             nontrivial_keys.add(json.dumps(cases[i], sort_keys=True, default=str))
         for v in r["violations"]:
             n_viol += 1
@@ -323,7 +330,7 @@ def run_property(pid: str, tier: str, seed: int) -> int:
     exhaustive = (not capped) and len(done) == len(cases) and all(r.get("exhaustive", True) for _, r in done)
     cov = {
         "evaluations": execs,
-        "distinct_nontrivial": len(nontrivial_keys),
+        "distinct_nontrivial": len(nontrivial_keys) + nontrivial_extra,
         "rule": prop.RULE,
         "samples": samples,
         "states": max(states, 1),
@@ -364,7 +371,7 @@ def run_property(pid: str, tier: str, seed: int) -> int:
         return 2
     print(
         f"{pid} tier={tier} seed={seed} cases={len(done)}/{len(cases)} execs={execs} states={states} "
-        f"transitions={transitions} nontrivial={len(nontrivial_keys)} outcomes={len(outcomes)} "
+        f"transitions={transitions} nontrivial={len(nontrivial_keys) + nontrivial_extra} outcomes={len(outcomes)} "
         f"violations={len(new_violations)} known_absorbed={sum(hits.values())} exhaustive={exhaustive} wall={wall:.1f}s"
     )
     return rc
